@@ -62,10 +62,8 @@ CHECK = {
     'a Tuple holding the same object twice is a separate dimension (leaves only); Terminal inside a Tuple is documented as unsupported and not explored',
     'copy() of a Range, Slice or Zip raises on the current tree and is not part of the assign/copy grid; Zips and views in that grid are built over containers '
     '(a Range shared by two views is one cursor by design); a Zip of unequal lengths is not walked backwards there (recorded finding D17)',
-    'midop: get(-len-1) / get(-1000000) on Range and Slice (they return a value on the current tree, proposed/D29) and a refused get on a Zip whose earlier input is longer '
-    '(rewrites the held value tuple before raising, proposed/D30) are executed but not judged unless the instance is given rangeneg=1 / zipget=1; a successful get(slice, k) during an '
-    'iteration over the same Slice is not executed unless sliceget=1 (it desynchronises the Slice and reads past the underlying iterable on the current tree, proposed/D31); a successful get during the '
-    'iteration of a Range, Slice, Zip or Map moves the shared cursor on the current tree (existing behaviour, recorded in successful_get_moves_iteration, not judged)',
+    'midop: the calls that used to be switched off (get(-len-1) on Range/Slice, a refused get on a Zip whose earlier input is longer, a successful get(slice, k) during an iteration over the same Slice) are judged since the fixes c296c27, 76e756b, bc5c7a5 (flags rangeneg=1 zipget=1 sliceget=1); a successful get during the '
+    'iteration of a Range, Zip or Map moves the shared cursor on the current tree (existing behaviour, recorded in successful_get_moves_iteration, not judged)',
     'gcc/clang, glibc and the sanitizer run-times are trusted; element values beyond the small Int universe are represented by it (iteration never looks at values)',
   ],
   'instances': {
@@ -84,7 +82,7 @@ CHECK = {
       + [I('heap-asan', 'asan', 'phase=heap', 'maxn=2', 'amax=2', 'rmax=2', 'zmax=2', 'fmax=2')]
       + [I('history', 'base', 'phase=history'), I('history-asan', 'asan', 'phase=history', 'hmax=24')]
       + [I('assign', 'base', 'phase=assign'), I('assign-asan', 'asan', 'phase=assign')]
-      + [I('midop', 'base', 'phase=midop'), I('midop-asan', 'asan', 'phase=midop')]
+      + [I('midop', 'base', 'phase=midop', 'rangeneg=1', 'zipget=1', 'sliceget=1'), I('midop-asan', 'asan', 'phase=midop', 'rangeneg=1', 'zipget=1', 'sliceget=1')]
     ),
     'thorough': (
       [I('base', 'base', 'phase=base', 'maxn=8'), I('range', 'base', 'phase=range', 'rmax=9')]
@@ -101,7 +99,7 @@ CHECK = {
       + [I('heap-asan', 'asan', 'phase=heap', 'maxn=3', 'amax=3', 'rmax=3', 'zmax=2', 'fmax=3')]
       + [I('history', 'base', 'phase=history'), I('history-asan', 'asan', 'phase=history')]
       + [I('assign', 'base', 'phase=assign'), I('assign-asan', 'asan', 'phase=assign')]
-      + [I('midop', 'base', 'phase=midop'), I('midop-asan', 'asan', 'phase=midop')]
+      + [I('midop', 'base', 'phase=midop', 'rangeneg=1', 'zipget=1', 'sliceget=1'), I('midop-asan', 'asan', 'phase=midop', 'rangeneg=1', 'zipget=1', 'sliceget=1')]
     ),
   },
 }
